@@ -277,7 +277,10 @@ pub fn minimise(prop: &str, mut plans: Vec<Plan>, target: &str) -> (Vec<Plan>, u
         target,
         tried: 0,
         t0: std::time::Instant::now(),
-        max_tries: if prop == "C16" { 250 } else { 4000 },
+        max_tries: std::env::var("VERIF_SHRINK_TRIES")
+            .ok()
+            .and_then(|v| v.parse().ok())
+            .unwrap_or(if prop == "C16" { 250 } else { 4000 }),
         max_secs: 90.0,
         fresh_process: prop == "C16",
     };
